@@ -12,13 +12,13 @@ package main
 // } else if … { err = g() …}; if err != nil {…}`) is treated alike: what is removed are paths that no execution takes.
 
 import (
-	"go/types"
-	"os"
-	"strings"
 	"go/constant"
 	"go/token"
+	"go/types"
+	"os"
 	"reflect"
 	"regexp"
+	"strings"
 	"unsafe"
 
 	"golang.org/x/tools/go/ssa"
